@@ -12,7 +12,8 @@ From Coq Require Import List Bool Ascii String.
 From UV.Base Require Import Res.
 From UV.Py Require Import PyStr.
 From UV.Schemes Require Import Common Generic LegacyOpenssl Gentoo Debian.
-From UV.Schemes Require Import Rpm Gem Arch Openssl RoundTrips Semver Pypi Maven Nuget Conan RoundTrips2 SemverRoundTrip NugetRoundTrip.
+From UV.Schemes Require Import Rpm Gem Arch Openssl RoundTrips Semver Pypi Maven Nuget Conan RoundTrips2 SemverRoundTrip NugetRoundTrip DebianRoundTrip RpmRoundTrip.
+From Coq Require Import ZArith.
 Import ListNotations.
 
 Theorem C11_generic :
@@ -98,6 +99,27 @@ Example C11_nuget_roundtrip_inhabited :
   exists v, nuget_ctor (list_ascii_of_string " v1.02.3.4-RC.1+Build") = Ok v /\ nuget_str v = list_ascii_of_string "1.2.3.4-rc.1+Build".
 Proof. eexists. split; vm_compute; reflexivity. Qed.
 
+(* deb: the printed form of a constructed version constructs the same version again (zero or zero-padded epochs and an
+   explicit "-0" revision print differently from how they were written, and read back as the same value) *)
+Theorem C11_deb_roundtrip : forall s v, deb_ctor s = Ok v -> deb_ctor (deb_str v) = Ok v.
+Proof. exact deb_ctor_roundtrip. Qed.
+Example C11_deb_roundtrip_inhabited :
+  exists v, deb_ctor (list_ascii_of_string " 00:1.2-3-0") = Ok v /\ deb_str v = list_ascii_of_string "1.2-3-0".
+Proof. eexists. split; vm_compute; reflexivity. Qed.
+
+(* rpm: the same, outside the one case of the listed finding (a zero epoch in front of a version that begins with "v"
+   or "V"): the hypothesis is exactly the complement of that case, and the witness below is the finding *)
+Theorem C11_rpm_roundtrip : forall s v, rpm_ctor s = Ok v ->
+  (r_epoch v = 0%Z -> match r_version v with c :: _ => mem_c c vV = false | [] => True end) ->
+  rpm_ctor (rpm_str v) = Ok v.
+Proof. exact rpm_ctor_roundtrip. Qed.
+Example C11_rpm_roundtrip_refuted_without_the_hypothesis :
+  let s := list_ascii_of_string "0:v1.0" in
+  let v := {| r_epoch := 0; r_version := list_ascii_of_string "v1.0"; r_release := [] |} in
+  let w := {| r_epoch := 0; r_version := list_ascii_of_string "1.0"; r_release := [] |} in
+  rpm_ctor s = Ok v /\ rpm_ctor (rpm_str v) = Ok w /\ v <> w.
+Proof. split; [vm_compute; reflexivity|]. split; [vm_compute; reflexivity|discriminate]. Qed.
+
 Print Assumptions C11_generic.
 Print Assumptions C11_gentoo.
 Print Assumptions C11_alpine.
@@ -109,3 +131,6 @@ Print Assumptions C11_rpm_and_openssl_validity_matches_constructor.
 Print Assumptions C11_remaining_classes_validity_matches_constructor.
 Print Assumptions C11_semver_family_roundtrip.
 Print Assumptions C11_nuget_roundtrip.
+Print Assumptions C11_deb_roundtrip.
+Print Assumptions C11_rpm_roundtrip.
+Print Assumptions C11_rpm_roundtrip_refuted_without_the_hypothesis.
